@@ -404,3 +404,7 @@ mod test {
         assert_eq!(do_evaluate(&[], src.as_bytes()), correct)
     }
 }
+
+#[cfg(kani)]
+#[path = "/verif/kani/mapfns.rs"]
+mod kani_verif;
